@@ -100,6 +100,12 @@ def set_ops(e):
             z3.Function(f"set_diff_{n}", st.sort(), st.sort(), st.sort()))
 
 
+def bagof_fn(e):
+    """list(s) for a set / dict keys s: every member once (order not modelled)."""
+    from . import ty as T
+    return z3.Function(f"bagof_{T._sname(e)}", T.Set(e).sort(), T.Bag(e).sort())
+
+
 def supp_fn(e):
     from . import ty as T
     return z3.Function(f"supp_{T._sname(e)}", T.Bag(e).sort(), T.Set(e).sort())
@@ -162,7 +168,10 @@ def _collection_axioms(e):
     s, s2 = z3.Const("_s", st.sort()), z3.Const("_s2", st.sort())
     x = z3.Const("_e", e.sort())
     su, si, sdf = set_ops(e)
+    bagof = bagof_fn(e)
     return {
+        f"bagof_def[{n}]": FA([s, x], bagof(s)[x] == z3.If(s[x], 1, 0), bagof(s)[x]),
+        f"bagof_len[{n}]": FA([s], blen(bagof(s)) == card(s), bagof(s)),
         # set algebra (a | b, a & b, a - b) with the cardinality laws of finite sets
         f"union_def[{n}]": FA([s, s2, x], su(s, s2)[x] == z3.Or(s[x], s2[x]), su(s, s2)[x]),
         f"inter_def[{n}]": FA([s, s2, x], si(s, s2)[x] == z3.And(s[x], s2[x]), si(s, s2)[x]),
